@@ -78,6 +78,12 @@ def deviations(n):
         # a good module followed, in the same file, by one whose symbol table cannot be built (and the other way round)
         out.append({'text': {m: 'twomods'}, 'symerr': [m + 'X']})
         out.append({'text': {m: 'twomods'}, 'symerr': [m]})
+        # a file named unlike its only module, and that module's symbol table cannot be built: the failure is the module's
+        out.append({'text': {m: 'misnamed'}, 'symerr': [m + 'REAL']})
+        # the first source's text does not parse, the second source answers the name with a file holding another module
+        out.append({'nsrc': 2, 'src': {m + '0': 'ok', m + '1': 'ok'}, 'text': {m + '0': 'synerr', m + '1': 'misnamed'}})
+        out.append({'nsrc': 2, 'src': {m + '0': 'ok', m + '1': 'ok'}, 'text': {m + '0': 'dupsym', m + '1': 'misnamed'}})
+        out.append({'nsrc': 2, 'src': {m + '0': 'error', m + '1': 'ok'}, 'text': {m + '1': 'misnamed'}})
         for idx in (0, 1):
             for ans in ('fresh', 'error', 'normal'):
                 s = [{'ans': {}}, {'ans': {}}]
